@@ -147,9 +147,9 @@ def attr_key(it, v):
         if n in ('Cell', 'Slice', 'Builder'):
             return ('cell', bocrun.ckey(it, v))
         if n == 'Address':
-            ac = v.attrs.get('anycast')
+            ac = cm.field(it, v, 'anycast')
             ack = None if not isinstance(ac, Inst) else (attr_key(it, ac.attrs.get('depth')), attr_key(it, ac.attrs.get('rewrite_pfx')))
-            return ('addr', attr_key(it, v.attrs.get('wc')), attr_key(it, v.attrs.get('hash_part')), ack)
+            return ('addr', attr_key(it, cm.field(it, v, 'wc')), attr_key(it, cm.field(it, v, 'hash_part')), ack)
         if n == 'ExternalAddress':
             return ('ext', attr_key(it, v.attrs.get('external_address')), attr_key(it, v.attrs.get('len')))
         return (n, tuple(sorted((k, attr_key(it, x)) for k, x in v.attrs.items() if k not in ('value_coins', 'cell'))))
